@@ -6,6 +6,7 @@ import GeonumModel.Lemmas.AngleStep
 import GeonumModel.Spec.RealWitness
 import GeonumModel.Lemmas.Exact
 import GeonumModel.Lemmas.FloatDivF
+import GeonumModel.Spec.RoundWitness
 
 set_option linter.unusedSectionVars false
 set_option linter.unusedVariables false
@@ -194,5 +195,18 @@ example {F : Type} [FloatSpec F] :
   linarith
 
 example {F : Type} [FloatSpec F] : (⟨zero, 3⟩ : Angle F).Inv ∧ (⟨zero, 5⟩ : Angle F).Inv := ⟨inv_zero 3, inv_zero 5⟩
+
+
+/-! ### R — on the arithmetic that really rounds (`R64`) -/
+section R
+
+/-- (R) division of an angle by a scalar for all binary64 operands in the domain -/
+theorem divF_rounded {a : Angle R64} {k : R64} (ha : a.Inv) (hbl : a.blade ≤ 2 ^ 42)
+    (hk0 : 1 / 10 ^ 100 ≤ k.v) (hs : Angle.Tq a / k.v ≤ 2 ^ 40) :
+    (a.divF k).Inv ∧ a.divFR k = a.divF k ∧
+    |Angle.Tq (a.divF k) - Angle.Tq a / k.v| < (e10 : R64).v + (Angle.Tq a / k.v) * (16 * (1 / 2 ^ 53)) + 1 / 10 ^ 150 :=
+  divF_float (F := R64) ha hbl trivial hk0 hs
+
+end R
 
 end GeonumModel.C04
